@@ -31,6 +31,9 @@ CHECKS={
  "C04":dict(tech="runtime monitoring: distance-field oracle (exact nearest-point distance to the input path vs membership in the returned outline) over seeded paths x widths x 3 caps x 6 joins x limits x tolerances",
    text="Stroke and Offset are run on generated open/closed paths; 72 points per case in a band around the path are classified by their exact distance to the input: closer than w/2 - tol must be filled (except beyond a butt cut / in the wedge of a non-round join), farther than w/2 + tol must not (except within the reach of a miter/arcs join or a square cap); round cap + round join have no exceptions; Offset is decided by the signed distance to the contour.",
    note="trusted: harness/geom nearest-point search and winding numbers; effective tolerance = 8*tol for curved paths (the stroke flattens with the Flatten step formulas, C03) plus the package Tolerance of the final Settle; many input classes fail in the library and are pinned by witnesses (strata_witness_only in the evidence)", ref="DESIGN.md §5 C04"),
+ "C10":dict(tech="runtime monitoring: independent validator of Data(), shadow replay of builder histories (reference geometry), 47 public methods under recover/watchdog with bitwise receiver/argument snapshots (sentinel-filled capacity tail)",
+   text="Histories of 1-25 builder calls with hostile arguments are executed; the resulting data is validated (decodable both ways, moves, closes, zero-length, arc parameters), compared with a shadow replay of the requested geometry, and 47 queries/derivations are applied under recover with before/after snapshots of receiver, spare capacity and arguments; a second stratum feeds NaN/Inf and only requires the builder not to panic.",
+   note="trusted: harness/geom and the validator's reading of the documented Data() layout; the shadow does not follow histories whose outcome is decided by rounding at Epsilon, 1e9-sized coordinates, radius-corrected arcs or MoveTo+Close (pinned finding); panics of deep operations on hostile paths are matched as call-site findings with rate caps", ref="DESIGN.md §5 C10"),
 }
 NA_REASON="monitor not built yet (work in progress; see DESIGN.md §5)"
 m={"version":1,"setup_cmd":"./run.sh setup",
